@@ -506,7 +506,11 @@ impl ObjFileFormat for TextFormat {
                 ".DEBUG" => if !rest.is_empty() {
                     let split_pos = rest.iter().position(|l| l.starts_with('='))?;
                     if !rest.last()?.starts_with('=') { return None; }
-                    let (label_src, [_, line_src @ .., _]) = rest.split_at(split_pos) else { unreachable!("divider should be present") };
+                    let (label_src, line_src) = match rest.split_at(split_pos) {
+                        (label_src, [_, line_src @ .., _]) => (label_src, line_src),
+                        // Only one divider: the writer emits this for a symbol table without debug symbols.
+                        (label_src, _) => (label_src, &[][..]),
+                    };
 
                     let label_table = parse_table(label_src, ["LABEL", "INDEX"], |[label, index_str], _| {
                         let index = index_str.parse().ok()?;
